@@ -226,7 +226,8 @@ def generate(rng, cfg):
                 fs.append(f)
                 cur = F.apply(cur, f)
             trace.append([c, "deliver", {"src": src, "doc": doc, "faults": fs, "as": rng.choice(["bytes", "bytes", "str"]),
-                                         "multiple": rng.random() < 0.4}])
+                                         "multiple": rng.random() < 0.4,
+                                         "entry": rng.choice(["Calendar", "Calendar", "Calendar", "Component", "Event"])}])
     return {"cfg": {"provider": provider}, "trace": trace}
 
 
@@ -333,11 +334,12 @@ def exc_signature(e):
 # ---------------------------------------------------------------------------
 # execution
 
-def _parse_and_use(res, stepno, data, multiple, tag):
+def _parse_and_use(res, stepno, data, multiple, tag, entry="Calendar"):
     """from_ical, then to_ical and walk on whatever came back. Returns (outcome class, components)."""
-    from icalendar import Calendar
+    import icalendar
+    cls = {"Calendar": icalendar.Calendar, "Component": icalendar.cal.Component, "Event": icalendar.Event}[entry]
     nbytes = len(data)
-    kind, val, used = BUDGET.run(nbytes, lambda: Calendar.from_ical(data, multiple=multiple))
+    kind, val, used = BUDGET.run(nbytes, lambda: cls.from_ical(data, multiple=multiple))
     if BUDGET.exceeded or kind == "budget":
         res.violate("C04/termination/from_ical:" + _where_budget(val) + _rule_class(data, _where_budget(val)), stepno,
                     f"{tag}: step budget exhausted after {used} line events for {nbytes} bytes")
@@ -444,7 +446,10 @@ def execute(run, res):
                 payload = data.decode("utf-8", "replace")
                 res.probe("delivered_as_str")
             before_ids = set(W.cache_ids())
-            outcome, comps = _parse_and_use(res, stepno, payload, a["multiple"], f"deliver {a['src']} faults={fired}")
+            entry = a.get("entry", "Calendar")
+            res.ops["entry:" + entry] += 1
+            outcome, comps = _parse_and_use(res, stepno, payload, a["multiple"],
+                                            f"deliver {a['src']} faults={fired} via {entry}.from_ical", entry)
             if outcome != "parsed" and set(W.cache_ids()) - before_ids:
                 res.probe("parse_failed_after_caching_zone")
             if outcome == "parsed":
@@ -624,6 +629,8 @@ def simplify_step(step):
             yield [c, op, dict(a, **{"as": "bytes"})]
         if a["multiple"]:
             yield [c, op, dict(a, multiple=False)]
+        if a.get("entry", "Calendar") != "Calendar":
+            yield [c, op, dict(a, entry="Calendar")]
         doc = a["doc"].encode("latin-1")
         if a["faults"]:
             # materialise: the delivered bytes become the document, so that it can be shrunk line by line
